@@ -485,8 +485,14 @@ class SymEngine:
                 pass
         return out
 
-    def fail(self, label, key=None, detail=""):
-        """the harness reached a state that the property forbids on this whole path"""
+    def fail(self, label, key=None, detail="", stop=True):
+        """the harness reached a state that the property forbids on this whole path.
+        stop=False records the violation and lets the path continue (used for defects listed
+        in known_findings.json, so that the rest of the path is still checked)"""
+        if not stop:
+            self.violations.append({"label": label, "key": key, "model": self._model_dict(self._ensure_model()), "obligation": "false", "detail": detail})
+            self.stats.sat += 1
+            return
         ex = self._exclusions()
         if ex:
             r = self._check(*ex)
@@ -790,10 +796,11 @@ class ConcEngine:
             raise StopPath("concrete violation")
         return True
 
-    def fail(self, label, key=None, detail=""):
-        self.proved.append((label, False))
+    def fail(self, label, key=None, detail="", stop=True):
         self.failed.append({"label": label, "key": key, "detail": detail})
-        raise StopPath("concrete violation")
+        if stop:
+            self.proved.append((label, False))
+            raise StopPath("concrete violation")
 
     def observe(self, label, value):
         self.observed.append((label, value))
